@@ -6,12 +6,22 @@
   Shape per decoder `d`: for EVERY byte string `bs` (not longer than `MaxSlice`, the largest Chunk the
   code can hold) `run d bs` is neither `panic` nor `hang`, and the bytes it requests from the
   allocator are at most `K·|bs| + B` with the constants spelled out.
+
+  `panic` covers a refused `make` AND every index / reslice expression on the buffer: in the models
+  `c.buf[c.rpos+i]`, `c.buf[c.rpos : c.rpos+l]`, `c.buf[c.rpos:]`, `c.rpos += n` (XMT.Decode: `idxP`,
+  `sliceP`, `sliceFromP`, `advanceP`), `b[s]`, `b[s : s+i]`, `b[i:]` (XMT.DecodeDns: `idx`, `sliceP`,
+  `sliceFromP`) and `b[:n]` of the stream reader (XMT.DecodeStream: `prefixP`) panic out of range as Go
+  does.  The proofs discharge each bound from the guard the Go code puts in front of the expression
+  (XMT/DecodeSlice.lean); the same decoders without the guard panic (`*_guard_needed` below,
+  XMT/DecodeGuardsMatter.lean).
 -/
 import XMT.DecodeSafe
 import XMT.DecodeDns
 import XMT.DecodeStream
+import XMT.DecodeGuardsMatter
 import XMT.FragHostile
 import XMT.PacketAlloc
+import XMT.CbkHostile
 
 namespace XMT.Props.C04
 open XMT XMT.Decode
@@ -59,11 +69,36 @@ theorem loop_compose {α : Type} {K E : Nat} {d : D α} (h : Safe K 0 0 E d) (n 
 
 /-! ### data layer (in-memory reader) -/
 
+/-- `(*Chunk).Bytes()`: no input makes the reslice `c.buf[c.rpos : c.rpos+l]` (or any index read of the
+header) leave the buffer, nothing is allocated -/
 theorem bytes_total_alloc : TotalAndBounded bytes 1 0 := by
   simpa using safe_total_bounded (safe_bytes (K := 1) (Nat.le_refl 1))
 
 theorem str_total_alloc : TotalAndBounded str 1 0 := by
   simpa using safe_total_bounded (safe_str (K := 1) (Nat.le_refl 1))
+
+/-- the two theorems above rest on the guards of `Bytes()`: the same decoder with its length guards
+deleted is NOT total for any constants (it panics on a 3-byte input), and neither is the one that
+only lost `if n := c.Size(); n < c.rpos+int(l)` -/
+theorem bytes_guard_needed (K B : Nat) :
+    ¬ TotalAndBounded GuardsMatter.bytesBad K B ∧ ¬ TotalAndBounded GuardsMatter.bytesNoShortGuard K B ∧
+    ¬ TotalAndBounded GuardsMatter.strBad K B := by
+  refine ⟨fun h => ?_, fun h => ?_, fun h => ?_⟩
+  · have := (h [1, 5, 65] (by decide)).1
+    rw [GuardsMatter.bytesBad_panics_short] at this; cases this
+  · have := (h [1, 5, 65] (by decide)).1
+    rw [GuardsMatter.bytesNoShortGuard_panics] at this; cases this
+  · have := (h [1, 5, 65] (by decide)).1
+    rw [GuardsMatter.strBad_panics] at this; cases this
+
+/-- the primitive reads rest on `checkBounds` -/
+theorem checkBounds_guard_needed (K B : Nat) :
+    ¬ TotalAndBounded GuardsMatter.u8rBad K B ∧ ¬ TotalAndBounded GuardsMatter.u16rBad K B := by
+  refine ⟨fun h => ?_, fun h => ?_⟩
+  · have := (h [] (by decide)).1
+    rw [GuardsMatter.u8rBad_panics] at this; cases this
+  · have := (h [1] (by decide)).1
+    rw [GuardsMatter.u16rBad_panics] at this; cases this
 
 /-- `data.ReadStringList` (after the fix): total, at most 129 bytes requested per byte received -/
 theorem strList_total_alloc : TotalAndBounded strList 129 0 := by
@@ -172,6 +207,27 @@ the output buffer grows in proportion to the message -/
 theorem dnsRead_alloc (b w : Bytes) (h : Dns.read b = .ok w) : w.length ≤ b.length :=
   Dns.read_len b w h
 
+/-- `dnsRead_total` rests on the guards: with `if s += 2; s+i > len(b)` (resp. `if s += 10; s+2 >
+len(b)`) deleted, a 33-byte (resp. 23-byte) message makes `b[s : s+i]` (resp. `b[s]`) panic -/
+theorem dns_guard_needed :
+    ¬ Dns.Fine (GuardsMatter.Dns.decodePacketBad GuardsMatter.Dns.shortRecord) ∧
+    ¬ Dns.Fine (GuardsMatter.Dns.decodePacketBad GuardsMatter.Dns.shortAnswer) := by
+  have h1 := GuardsMatter.Dns.decodePacketBad_panics
+  have h2 := GuardsMatter.Dns.answersBad_panics
+  constructor
+  · intro h
+    cases hr : GuardsMatter.Dns.decodePacketBad GuardsMatter.Dns.shortRecord with
+    | panic m => rw [hr] at h; exact h
+    | ok a => rw [hr] at h1; cases h1
+    | err e => rw [hr] at h1; cases h1
+    | hang => rw [hr] at h1; cases h1
+  · intro h
+    cases hr : GuardsMatter.Dns.decodePacketBad GuardsMatter.Dns.shortAnswer with
+    | panic m => rw [hr] at h; exact h
+    | ok a => rw [hr] at h2; cases h2
+    | err e => rw [hr] at h2; cases h2
+    | hang => rw [hr] at h2; cases h2
+
 /-- before the fix: a 5-byte message hits `_ = b[12]` -/
 theorem dnsOld_panics : ∃ b : Bytes, b.length = 5 ∧
     (match Dns.decodePacketOld b with | .panic _ => true | _ => false) = true :=
@@ -184,6 +240,13 @@ theorem dnsOld_panics : ∃ b : Bytes, b.length = 5 ∧
 theorem streamBytes_alloc_unbounded :
     Stream.bytesAlloc [[7, 0, 0, 4, 0, 0, 0, 0, 0]] = Facts.maxSlice := by decide
 
+/-- the one reslice of the stream reader with a run-time bound, `b[:n]` after `io.ReadFull(r.r, b)`, is
+in range on EVERY stream: evaluated as Go evaluates it (`none` = panic) it is the `body` read of
+`Codec.streamPrim` -/
+theorem streamBytes_reslice_total (l : Nat) (s : Codec.Stream) :
+    Stream.bodyP l s = some (Codec.streamPrim.body l s) :=
+  Stream.bodyP_eq l s
+
 /-- what does hold: a single call never requests more than `MaxSlice` -/
 theorem streamBytes_alloc_partial (s : Codec.Stream) : Stream.bytesAlloc s ≤ Facts.maxSlice :=
   Stream.bytesAlloc_le s
@@ -193,7 +256,6 @@ theorem streamBytes_alloc_partial (s : Codec.Stream) : Stream.bytesAlloc s ≤ F
 -- OPEN: receive / processMultiple / conn.resolve dispatch arms: only the unpack loop
 -- (`unpackLoop_total_alloc`) and the channel-or-close decision (`handleSwitch_total`) are proved; the
 -- arms run on the real code against a fake connServer/connHost (ops `recv`, `procmulti`, `resolve`).
--- OPEN: B64 transform `Read` and CBK `Read` framing — oracle only (ops `b64`, `cbk`, `rp`, `handle`).
 
 /-! ### the top-level wire form `Packet.Unmarshal` on arbitrary bytes -/
 
@@ -246,6 +308,57 @@ example : (Packet.unmarshal (fun n => n)
     [List.replicate 32 1 ++ [9, 0, 7, 0, 0, 0, 0, 0, 0, 0, 0, 0, 0, 7, 0x80, 0, 0, 0, 0, 0, 0, 0, 0x2A]]).toOption.isNone = true := by
   decide
 
+/-! ### the CBK wrapper's reader and the Base64-shift transform's reader on hostile bytes -/
+
+/-- **The CBK reader never panics on attacker-controlled bytes and never returns more than it was
+given.** For every key and block size `newSource` accepts and EVERY piece stream `cs` (any bytes, any
+chunking, empty pieces, truncated anywhere, count bytes of 0 or above the block size) and every list of
+Read sizes `ks`, the literal `(*CBK).Read` state machine of XMT/Cbk.lean (`none` = an outcome the Go
+code could only have by panicking) returns; what it hands out is at most the wire's length — at most
+`n` bytes per whole `n+1`-byte block — and each Read stays within the size asked for. -/
+theorem cbkRead_total_alloc (a b c d sz : UInt8) (s0 : Cbk.St) (h : Cbk.newSource a b c d sz = some s0)
+    (cs : Codec.Stream) (ks : List Nat) :
+    ∃ pieces e, Cbk.readSeq s0 cs ks = some (pieces, e) ∧
+      pieces.flatten.length ≤ cs.flatten.length ∧
+      pieces.flatten.length ≤ (s0.buf.length - 1) * (cs.flatten.length / s0.buf.length) ∧
+      pieces.flatten.length ≤ ks.sum ∧ pieces.length ≤ ks.length :=
+  Cbk.cbk_readSeq_hostile a b c d sz s0 h cs ks
+
+/-- `io.ReadAll` through the CBK reader on hostile bytes: a result exists as soon as the model's fuel
+exceeds the number of wire bytes (no panic, no hang; `none` is only ever fuel exhaustion), the error is
+never `io.EOF`, the output is bounded by the wire and the result does not depend on extra fuel.
+(`readAll 0 = none` by definition, hence "partial": the unconditional `≠ none` is false of the model
+for that reason alone.) -/
+theorem cbkReadAll_total_alloc_partial (a b c d sz : UInt8) (s0 : Cbk.St) (h : Cbk.newSource a b c d sz = some s0)
+    (cs : Codec.Stream) :
+    (∀ fuel, cs.flatten.length < fuel → ∃ out e, Cbk.readAll fuel s0 cs = some (out, e) ∧ e ≠ some .eof) ∧
+    (∀ fuel out e, Cbk.readAll fuel s0 cs = some (out, e) →
+      out.length ≤ cs.flatten.length ∧
+      out.length ≤ (s0.buf.length - 1) * (cs.flatten.length / s0.buf.length)) ∧
+    (∀ fuel, Cbk.readAll fuel s0 cs = none → fuel ≤ cs.flatten.length) ∧
+    (∀ f1 f2, cs.flatten.length < f1 → cs.flatten.length < f2 → Cbk.readAll f1 s0 cs = Cbk.readAll f2 s0 cs) :=
+  Cbk.cbk_readAll_hostile_partial a b c d sz s0 h cs
+
+/-- One `Read` from EVERY state the reader can be in (invariant `HInv`: the buffer has its length,
+the cursor is not negative; established by `newSource`, preserved by every `Read` whatever its
+outcome) returns, keeps the invariant and never overruns the caller's buffer — so also for a consumer
+that goes on reading after an error. -/
+theorem cbkRead_step_total {n : Nat} (hn : 16 ≤ n) {s : Cbk.St} (h : Cbk.HInv n s) (r : Codec.Stream) (k : Nat) :
+    ∃ s' r' got e, Cbk.read s r k = some (s', r', got, e) ∧ Cbk.HInv n s' ∧ got.length ≤ k :=
+  Cbk.cbk_read_no_panic hn h r k
+
+/-- The Base64-shift transform's `Read`: it fails exactly when the Base64 decoder fails and otherwise
+returns the decoder's output, byte for byte shifted back — same length, nothing allocated beyond it
+(base64 itself is a parameter). -/
+theorem b64Read_total_alloc (dec64 : Bytes → Option Bytes) (shift : UInt8) (p : Bytes) :
+    (Wrap.b64Read dec64 shift p = none ↔ dec64 p = none) ∧
+    (∀ out, Wrap.b64Read dec64 shift p = some out →
+      ∃ raw, dec64 p = some raw ∧ out.length = raw.length ∧ out = raw.map (· - shift)) :=
+  ⟨Wrap.b64Read_eq_none dec64 shift p, fun out h => Wrap.b64Read_some dec64 shift p out h⟩
+
+/-- non-vacuity of the hypothesis: a key and size `newSource` accepts -/
+example : (Cbk.newSource 7 9 3 200 16).isSome = true := by decide
+
 /-! ### the fragment dispatcher under a hostile peer (state across packets) -/
 
 /-- ANY sequence of fragment packets (any IDs, jobs, groups, counts, positions, empty or not, any
@@ -270,8 +383,11 @@ theorem fragDispatch_folded_guard_panics :
 
 /-! ### non-vacuity -/
 
+-- (`decide +kernel`: the kernel evaluates the decoder; the elaborator's own evaluator is exponential in
+-- the nesting depth of `match`es, which the explicit index / reslice steps of the model deepen)
 example : ∃ bs, bs.length ≤ Facts.maxSlice ∧ (∃ s, run (readProxyData true) bs = .ok () s ∧ s.alloc = 56 + 2) :=
-  ⟨[1, 1, 1, 65, 1, 1, 66, 0], by decide, _, rfl, by decide⟩
+  ⟨[1, 1, 1, 65, 1, 1, 66, 0], by decide,
+    ⟨[], 58, [.by [], .str [66], .str [65], .u8 1]⟩, by decide +kernel, by decide⟩
 example : (run (rFuncRemapList 0) [0, 0, 0, 1, 0, 0, 0, 9]).alloc = 24 := by decide
 example : (run (rLs 0) [0xFF, 0xFF, 0xFF, 0xFF, 1]).alloc = 0 := by decide
 example : (match Dns.read [0, 0, 1, 0, 0, 1, 0, 0, 0, 0, 0, 1, 1, 97, 0, 0, 1, 0, 1,
